@@ -391,3 +391,36 @@ def u_sendnext(ctx):
     ctx.canary("canary: a step never transmits", AND(*[NOT(g) for e in exits for g, ev in e.log if ev[0] == "_send"]), exits[-1] if exits else None)
     ctx.trust("A-atomic: resendfrom / clear / printing are read several times in one step; writes by the read thread in between are not modelled",
               "gcoder.gcode_strip_comment_exp.sub / str.strip / str.lstrip().startswith(';@') as uninterpreted functions")
+
+
+@unit("printcore.startprint", ["C15"])
+def u_startprint(ctx):
+    st = State(T, {}, {}, []); x = ctx.executor(); install_pc_strings(x)
+    pc_, sent, prn = mk_pc(st, x)
+    B_ = lambda n: VBool(fresh(n, z3.BoolSort()))
+    o = st.heap[pc_.oid]
+    o.update({"printing": B_("printing"), "online": B_("online"), "clear": B_("clear"), "resendfrom": VNum(z3.IntVal(0), z3.ToReal(fresh("resendfrom", z3.IntSort())), True),
+              "queueindex": num(0), "mainqueue": NONE, "print_thread": NONE})
+    x.contracts[("printcore", "_reset_line_numbers")] = lambda x_, recv, a, k, st_: (st_.log.append((T, ("reset", st_.heap[recv.oid]["clear"].t))), st_.heap[recv.oid].__setitem__("lineno", num(0)), NONE)[2]
+    th = st.alloc("Thread", {})
+    x.ext_names["threading"] = VModule("threading")
+    x.ext["threading.Thread"] = lambda x_, a, k, st_, n: (st_.log.append((T, ("thread", dict(k)))), th)[1]
+    x.contracts[("Thread", "start")] = lambda x_, recv, a, k, st_: (st_.log.append((T, ("thread.start",))), NONE)[2 - 1]
+    job = st.alloc("GCode", {}); idx = VNum(z3.IntVal(0), z3.ToReal(fresh("startindex", z3.IntSort())), True)
+    h0 = st.snap()
+    exits = ctx.run(x, "printcore.startprint", [pc_, job, idx], {}, st)
+    covers(ctx, exits); never_raises(ctx, exits)
+    busy = OR(h0[pc_.oid]["printing"].t, NOT(h0[pc_.oid]["online"].t))
+    for e in exits:
+        if e.kind != "return": continue
+        o1 = e.heap[pc_.oid]
+        started = x.truth(e.payload, None)
+        ctx.check("a print starts exactly when the sender is online and idle", started == NOT(busy), e, None, "post")
+        resets = [(g, ev) for g, ev in e.log if ev[0] == "reset"]
+        ctx.check("a started job: numbering is reset (M110) with the flow-control flag `clear` already lowered, so line 0 waits for the M110 acknowledgement; resend state cleared; "
+                  "the job and the start index are installed before the print thread starts",
+                  IMP(started, AND(z3.BoolVal(len(resets) == 1 and [ev[0] for g, ev in e.log] == ["reset", "thread", "thread.start"]), *[g for g, ev in e.log],
+                                   *[NOT(ev[1]) for g, ev in resets], NOT(o1["clear"].t), o1["printing"].t,
+                                   z3.ToInt(o1["resendfrom"].val) == -1, v_same(as_opt(o1["queueindex"]), as_opt(idx)),
+                                   NOT(as_opt(o1["mainqueue"]).none))), e, None, "post")
+        ctx.check("a refused start changes nothing", IMP(NOT(started), AND(o1["printing"].t == h0[pc_.oid]["printing"].t, o1["clear"].t == h0[pc_.oid]["clear"].t, *[NOT(g) for g, ev in e.log])), e, None, "frame")
